@@ -906,6 +906,19 @@ def m_copied(c):
 def m_rev(c):
     it, loc = c.arg(0)
     if isinstance(it, Iter):
+        if c.name.endswith("::rev") and it.ikind == "slice" and it.cells:
+            # positions are counted from the front: reversed, they are known only when the length is
+            n = it.remaining.lo if isinstance(it.remaining, Int) and it.remaining.is_const() else None
+            if n is not None and it.pos is not None:
+                cells = {j: it.cells[it.pos + n - 1 - j] for j in range(n) if (it.pos + n - 1 - j) in it.cells}
+                it = Iter(it.ikind, it.remaining, it.elem, it.start, it.end, it.extra, cells, 0, it.seen, it.last)
+            else:
+                e = it.elem
+                for x in it.cells.values():
+                    e = join_val(e, x)
+                it = Iter(it.ikind, it.remaining, e, it.start, it.end, it.extra, None, None, it.seen, it.last)
+            c.ret(it, src_loc=None)
+            return
         c.ret(it, src_loc=loc)
         return
     c.ret(Iter("opaque"))
@@ -1029,7 +1042,7 @@ def m_next(c):
                             s.cells[loc[0]] = set_at(s.cells[loc[0]], loc[1], Iter(cur.ikind, cur.remaining, cur.elem, cur.start, cur.end, cur.extra, cur.cells, cur.pos + 1, cur.seen, cur.last))
                     item = _item(c, s, it, el, idx)
                     _note_last(c, s, loc, item)
-                    c.ret(opt_some(item), st=s)
+                    c.ret(opt_some(item), st=s, extras=_enum_index_extras(c, s, it, rvar))
             except Infeasible:
                 pass
         return
@@ -1051,13 +1064,37 @@ def m_next(c):
         c.I.write_loc(s1, rvar, usize(max(cur.lo - 1, 0), max(cur.hi - 1, 0)), LinForm.var((tmp, ())) - 1)
         s1.kill_cell(tmp)
         cur = c.I.read_loc(s1, loc)
+        el = elem
         if isinstance(cur, Iter) and cur.pos is not None:
-            s1.cells[loc[0]] = set_at(s1.cells[loc[0]], loc[1], Iter(cur.ikind, cur.remaining, cur.elem, cur.start, cur.end, cur.extra, None, None, cur.seen, cur.last))
-        item = _item(c, s1, it, elem, 99)
+            # the position is exact (counted from the front), so an element known by position is the one handed out
+            if cur.cells:
+                el = cur.cells.get(cur.pos, elem)
+            s1.cells[loc[0]] = set_at(s1.cells[loc[0]], loc[1], Iter(cur.ikind, cur.remaining, cur.elem, cur.start, cur.end, cur.extra, cur.cells, cur.pos + 1, cur.seen, cur.last))
+        item = _item(c, s1, it, el, 99)
         _note_last(c, s1, loc, item)
-        c.ret(opt_some(item), st=s1)
+        c.ret(opt_some(item), st=s1, extras=_enum_index_extras(c, s1, it, rvar))
     except Infeasible:
         pass
+
+
+def _enum_index_extras(c, st, it, rvar):
+    """`iter().enumerate()` over a whole container, drawn from by next() only (the same condition as the `seen` tracking): the index handed
+    out with an item is  len(container) - remaining_after - 1"""
+    if not (isinstance(it.extra, tuple) and it.extra and it.extra[0] == "enum" and it.extra[1] == "ref"):
+        return ()
+    if it.seen is None or not isinstance(it.start, tuple):
+        return ()
+    src = it.start
+    cur = c.I.read_loc(st, src)
+    if not isinstance(cur, Arr):
+        return ()
+    lv = (src[0], src[1] + ("len",))
+    if st.leaf(lv) is None or st.leaf(rvar) is None:
+        return ()
+    l = LinForm.var(lv) if not cur.len.is_const() else LinForm.constant(cur.len.lo)
+    r = st.leaf(rvar)
+    rl = LinForm.var(rvar) if not r.is_const() else LinForm.constant(r.lo)
+    return (((("v", 1), 0, 0), l - rl - 1),)
 
 
 def _tracked(it):
@@ -1121,7 +1158,7 @@ def m_enumerate(c):
         c.ret(Iter("opaque"))
         return
     # same iterator, items become (index, item); the index is only known to be a valid count
-    c.ret(Iter(it.ikind, it.remaining, it.elem, it.start, it.end, ("enum", it.extra), it.cells, it.pos), src_loc=loc)
+    c.ret(Iter(it.ikind, it.remaining, it.elem, it.start, it.end, ("enum", it.extra), it.cells, it.pos, it.seen, None), src_loc=loc)
 
 
 def _item(c, st, it, elem, tag):
